@@ -40,6 +40,20 @@ CHECKS = {
                      "orderings and every type pattern, with and without a transformation; Hermiticity and zero "
                      "real part are checked on every returned array.",
                 technique="exhaustive enumeration of shell orderings and configurations against a reference model"),
+    "C03": dict(engine=E1, ref="5/C03",
+                text="All 36 l-pairs (both branches of the internal a/b swap) x types x geometry x shapes, observed "
+                     "with charge sets covering 7 position classes (on a centre, mid-bond, on an axis, near, far, "
+                     "1e-7 off a centre; Boys arguments 0..2e9 recorded) and, for a sub-family, all 119 subsets of "
+                     "1..5 classes; each per-charge slice compared with an independent McMurchie-Davidson "
+                     "reference at 1e-8*sqrt(V_aa V_bb); the nuclear-attraction matrix compared with the sum.",
+                technique="exhaustive enumeration of a finite configuration product against a reference model"),
+    "C04": dict(engine=E1, ref="5/C04",
+                text="Every one of the 256 (l<=3) shell quartets in its own orientation x geometry classes x "
+                     "exponent-placement patterns x contraction patterns, plus a fixed list of 40 ill-conditioned "
+                     "core-s/diffuse-d,f quartets in five placements, is executed at block level and compared "
+                     "element-wise with an independent McMurchie-Davidson reference at 1e-6 of the Schwarz scale; "
+                     "whole-basis calls (2-4 shells, all type patterns) in both notations and transformed.",
+                technique="exhaustive enumeration of shell quartets and configurations against a reference model"),
 }
 
 NOT_YET = {}
